@@ -2617,8 +2617,17 @@ class DiskObjectStore(PackBasedObjectStore):
             sha = hex_to_sha(cast(ObjectID, sha))
 
         midx = self.get_midx()
-        if midx is not None and sha in midx:
-            return True
+        if midx is not None:
+            result = midx.object_offset(cast(RawObjectID, sha))
+            if result is not None:
+                # The MIDX may have outlived the pack it names (repack, gc,
+                # a file copied from elsewhere): only believe it if that
+                # pack is still there and has the object, as get_raw does.
+                try:
+                    if sha in self._get_pack_by_name(result[0]):
+                        return True
+                except (KeyError, PackFileDisappeared):
+                    pass
 
         # Fall back to checking individual packs
         return super().contains_packed(sha)
